@@ -35,6 +35,17 @@ CHECKS.update({
     "C15": dict(text="Instrumented applications in the ring runs: transmit call-backs only for the wire holder with no request outstanding, exactly one matching reply/time-out per request, reply form, round-robin order modulo number of apps, no second turn after decline.", note=RING_NOTE, technique=RING_TECH, ref="6 C15"),
 })
 
+DP_NOTE = "Trusted: reference slave and channel of the harness (dp.rs, DESIGN 5.5), reply classes by form (DESIGN 5.6) computed inside TLC from wire bytes with Codec.tla, TLC/SANY/Json; events collected after every poll. Exhaustive part: layer-M model jobs listed in the evidence (when present); beyond them seeded random histories."
+DP_TECH = "TLA+ rule monitor (DpRules.tla) as TLC trace specification over event logs of the real FdlActiveStation+DpMaster against reference slaves + TLC model checking of the DP model"
+CHECKS.update({
+    "C03": dict(text="Per peripheral the monitor tracks the bring-up phase from delivered replies (diag ok -> Set_Prm SC -> Chk_Cfg SC -> clean diag) and rejects any Data_Exchange request outside Ready (C03.order, strict Prm_Req reading); Set_Prm/Chk_Cfg bytes are compared with the normative PDU built from the configured options (C03.prm/cfg/saps/wd).", note=DP_NOTE, technique=DP_TECH, ref="6 C03"),
+    "C04": dict(text="DX request payload = last user write (C04.out); pi_i changes only after a delivered well-formed DX reply of the configured length without SAPs and then equals its payload (C04.in); DataExchanged iff such an update or SC for input-less peripherals (C04.event) - under lost/substituted replies of every kind.", note=DP_NOTE, technique=DP_TECH, ref="6 C04"),
+    "C07": dict(text="After FaultsEnd (all slaves powered, matching, fault flags cleared) every peripheral must be running within Bdp = 4(retry+2)+10 DP cycles (C07.running), from whatever state the random fault/power-cycle/user-call history left master and slaves in.", note=DP_NOTE, technique=DP_TECH, ref="6 C07"),
+    "C08": dict(text="Every request towards a peripheral is checked against first/probe/same/toggle/limit clauses from the wire bytes, the replies actually delivered and the Offline/Online events, for retry limits 1..3 (quick) / 1..15 (thorough), user diagnostics requests at arbitrary instants.", note=DP_NOTE, technique=DP_TECH, ref="6 C08"),
+    "C14": dict(text="Destinations between cycle reports form a subsequence of slot order with <= 1+retry adjacent repeats (C14.pass); peripheral events follow the life-cycle automaton and agree with is_live/is_running after every poll (C14.life/flags); DX only after Configured; master turn ends also for 0 peripherals (Hang event).", note=DP_NOTE, technique=DP_TECH, ref="6 C14"),
+    "C05": dict(text="Panic and Hang events are never accepted in any driver: ring runs (all modes incl. faults and un-synchronised start), TLC-generated schedules of MC_FdlSingle replayed on the real station (every reachable model state to the emit depth, adversarial telegrams incl. addresses >125 and own address), random deep single-station walks, DP runs with 0..4 peripherals and random extended diagnostics; model: NoPanic invariant of MC_FdlSingle. Harness builds with debug assertions and overflow checks and a logger that formats every record.", note="Trusted: catch_unwind at the poll call site, 5 s watchdog for hangs, TLC. Byte-level random/mutational fuzzing is harness-driven (TLA+ supplies only the oracle 'no Panic/Hang').", technique="TLC model checking of FdlStation (NoPanic) + replay of TLC schedules on the real code + TLC trace validation of all driver logs", ref="6 C05"),
+})
+
 ALL = ["C%02d" % i for i in range(1, 21)]
 
 
@@ -63,7 +74,7 @@ def main():
             "guard": "profirust_verif",
             "enable": "RUSTFLAGS='--cfg profirust_verif' (set in /verif/harness/.cargo/config.toml; the harness has a path dependency on /repo)",
             "baseline_off_cmd": "cd /repo && cargo test --workspace --no-fail-fast --offline",
-            "source_commits": [],
+            "source_commits": ["e4b165e"],
             "add_only": True,
         },
         "engines": [
